@@ -172,7 +172,14 @@ fn gen_shape(w: &mut World, p: &Profile) -> Shape {
         let n = match cont {
             Cont::Ext => 2,
             Cont::Tuple => w.below(13),
-            Cont::Array => pick(w, &ARRAY_LENS),
+            // (257 crosses the u8 boundary of per-child indices; drawn rarely because such cases are heavy)
+            Cont::Array => {
+                if !p.small && w.chance(2) {
+                    257
+                } else {
+                    pick(w, &ARRAY_LENS[..8])
+                }
+            }
             Cont::Vec | Cont::Group => {
                 if !p.big_lens.is_empty() && w.chance(p.big_pct) {
                     pick(w, &p.big_lens)
@@ -246,7 +253,19 @@ pub fn gen_case(w: &mut World, p: &Profile) -> CaseA {
             never[i] = w.chance(p.never_pct);
         }
     }
-    let always = if p.always_ready && nl > 0 { Some(w.below(nl)) } else { None };
+    // C17: one (sometimes two) inputs have an item whenever they are polled
+    let always: Vec<usize> = if p.always_ready && nl > 0 {
+        let mut v = vec![w.below(nl)];
+        if nl >= 3 && w.chance(40) {
+            let j = w.below(nl);
+            if !v.contains(&j) {
+                v.push(j);
+            }
+        }
+        v
+    } else {
+        vec![]
+    };
     let bulk: Option<usize> = if nl >= 16 && !p.small && w.chance(50) { Some(w.below(3)) } else { None };
     // ... except for up to three children at random positions, which keep their random scripts
     let bulk_except: Vec<usize> = if bulk.is_some() { (0..w.below(4)).map(|_| w.below(nl)).collect() } else { vec![] };
@@ -258,8 +277,8 @@ pub fn gen_case(w: &mut World, p: &Profile) -> CaseA {
             Fam::WaitF | Fam::WaitS if *idx == 1 => 20,
             _ => p.err_pct / 3,
         };
-        if Some(i) == always {
-            leaves.push(LeafSpec { script: vec![], always_ready: true, resumable: false, wake_on_drop: false });
+        if always.contains(&i) {
+            leaves.push(LeafSpec { script: vec![], always_ready: true, resumable: false, wake_on_drop: false, hint_mode: if p.small { 0 } else { w.below(2) as u8 } });
             continue;
         }
         let mut script = gen_script(w, p, *stream, never[i], err_pct);
@@ -286,7 +305,9 @@ pub fn gen_case(w: &mut World, p: &Profile) -> CaseA {
             script.extend(more);
         }
         let wake_on_drop = !p.small && w.chance(p.drop_wake_pct);
-        leaves.push(LeafSpec { script, always_ready: false, resumable, wake_on_drop });
+        // streams report (0, None), the exact number of items left, or a loose bound: adapters may consult it
+        let hint_mode = if p.small || !*stream || resumable { 0 } else { [0u8, 0, 1, 1, 2][w.below(5)] };
+        leaves.push(LeafSpec { script, always_ready: false, resumable, wake_on_drop, hint_mode });
     }
     // one injected panic at a single child poll
     if nl > 0 && w.chance(p.panic_pct) {
@@ -298,7 +319,7 @@ pub fn gen_case(w: &mut World, p: &Profile) -> CaseA {
         }
     }
     let cancel_at = if w.chance(p.cancel_pct) { Some(w.below(7)) } else { None };
-    let max_yields = if always.is_some() { Some(6 * nl + w.below(2 * nl + 1)) } else { None };
+    let max_yields = if !always.is_empty() { Some(6 * nl + w.below(2 * nl + 1)) } else { None };
     CaseA { shape, leaves, cancel_at, max_yields, spurious: p.spurious }
 }
 
